@@ -407,7 +407,7 @@ theorem insert_spec (n : Node) : ∀ (k : List Nib) (v : Val), Canon n → TermK
     | nil => exact absurd rfl (term_ne_nil hk)
     | cons x r =>
       refine ⟨true, .short (x :: r) (.value v), by simp [Mpt.insert], .leaf _ _ hk hv, by simp, by simp,
-        by intro ch h; cases h, ?_⟩
+        (by intro ch h; cases h), ?_⟩
       intro k' hk'
       rw [get_leaf hk hk']; simp [Mpt.get]
   | value old => intro k v hC; exact absurd hC canon_value_false
@@ -438,12 +438,12 @@ theorem insert_spec (n : Node) : ∀ (k : List Nib) (v : Val), Canon n → TermK
           simp only [Mpt.insert, hsp]
           by_cases h : old = v <;> simp [h]
         by_cases hov : old = v
-        · refine ⟨false, _, by rw [hins, if_pos hov], hC, by simp, fun _ => rfl, by intro ch h; cases h, ?_⟩
+        · refine ⟨false, _, by rw [hins, if_pos hov], hC, by simp, fun _ => rfl, (by intro ch h; cases h), ?_⟩
           intro k' hk'
           rw [get_leaf hK hk', ek, hov]
           split <;> rfl
         · refine ⟨true, .short cm (.value v), by rw [hins, if_neg hov], .leaf _ _ hK hv, by simp, by simp,
-            by intro ch h; cases h, ?_⟩
+            (by intro ch h; cases h), ?_⟩
           intro k' hk'
           rw [get_leaf hK hk', get_leaf hK hk', ek]
           split <;> simp [*]
@@ -457,7 +457,7 @@ theorem insert_spec (n : Node) : ∀ (k : List Nib) (v : Val), Canon n → TermK
           have := hdf rfl
           subst this
           refine ⟨false, .short cm (.full ch0), by simp [Mpt.insert, hsp, hi], hC, by simp, fun _ => rfl,
-            by intro ch h; cases h, ?_⟩
+            (by intro ch h; cases h), ?_⟩
           intro k' hk'
           by_cases hkk : k' = x :: r
           · subst hkk
@@ -468,7 +468,7 @@ theorem insert_spec (n : Node) : ∀ (k : List Nib) (v : Val), Canon n → TermK
         | true =>
           subst hch'
           refine ⟨true, .short cm (.full ch'), by simp [Mpt.insert, hsp, hi], .ext _ _ hKne hK hCn, by simp,
-            by simp, by intro ch h; cases h, ?_⟩
+            by simp, (by intro ch h; cases h), ?_⟩
           intro k' hk'
           rw [get_short, get_short]
           cases hs : stripPrefix cm k' with
@@ -508,7 +508,7 @@ theorem insert_spec (n : Node) : ∀ (k : List Nib) (v : Val), Canon n → TermK
             (.full (setChild (setChild (fun _ => .empty) kn (insertNil rK' c)) kk (insertNil rk' (.value v))))) := by
           simp only [Mpt.insert, hsp]
           cases cm <;> rfl
-        refine ⟨true, _, hins, hCb, insertNil_ne_empty (by simp), by simp, by intro ch h; cases h, ?_⟩
+        refine ⟨true, _, hins, hCb, insertNil_ne_empty (by simp), by simp, (by intro ch h; cases h), ?_⟩
         intro k' hk'
         rw [hgetb k' hk', e1]
   | full ch ih =>
@@ -578,5 +578,660 @@ theorem insert_spec (n : Node) : ∀ (k : List Nib) (v : Val), Canon n → TermK
           · rw [if_neg h]
             have : ¬ (x :: r = k0 :: kr) := by simp [h]
             rw [if_neg this]
+
+/-! ### delete -/
+
+theorem isEmpty_iff (n : Node) : n.isEmpty = true ↔ n = .empty := by
+  cases n <;> simp [Node.isEmpty]
+
+theorem mem_nonEmptyIdx (ch : Nib → Node) (i : Nib) : i ∈ nonEmptyIdx ch ↔ ch i ≠ .empty := by
+  simp only [nonEmptyIdx, List.mem_filter, List.mem_finRange, true_and]
+  cases hc : ch i <;> simp [Node.isEmpty]
+
+theorem nodup_nonEmptyIdx (ch : Nib → Node) : (nonEmptyIdx ch).Nodup :=
+  List.Pairwise.filter _ (List.nodup_finRange 17)
+
+/-- the node that `delete` builds from a full node whose children are `ch'` (reduce to a short node
+    when a single child is left) -/
+def reduceFull (ch' : Nib → Node) : Node :=
+  match nonEmptyIdx ch' with
+  | [pos] =>
+    if pos ≠ 16 then
+      match ch' pos with
+      | .short ck cv => .short (pos :: ck) cv
+      | c => .short [pos] c
+    else .short [pos] (ch' pos)
+  | _ => .full ch'
+
+theorem reduceFull_spec (ch' : Nib → Node) (hslots : ∀ i, SlotOk i (ch' i)) (hne : ∃ i, ch' i ≠ .empty) :
+    Canon (reduceFull ch') ∧ reduceFull ch' ≠ .empty ∧
+    ∀ x r, Mpt.get (reduceFull ch') (x :: r) = Mpt.get (ch' x) r := by
+  unfold reduceFull
+  cases hl : nonEmptyIdx ch' with
+  | nil =>
+    exfalso
+    obtain ⟨i, hi⟩ := hne
+    have := (mem_nonEmptyIdx ch' i).mpr hi
+    rw [hl] at this; cases this
+  | cons pos rest =>
+    cases rest with
+    | nil =>
+      have hpos : ch' pos ≠ .empty := (mem_nonEmptyIdx ch' pos).mp (by rw [hl]; exact List.mem_cons_self)
+      have hother : ∀ x, x ≠ pos → ch' x = .empty := by
+        intro x hx
+        apply Classical.byContradiction
+        intro hne'
+        have := (mem_nonEmptyIdx ch' x).mpr hne'
+        rw [hl] at this
+        simp at this
+        exact hx this
+      have hslot := hslots pos
+      simp only
+      by_cases h16 : pos = 16
+      · subst h16
+        simp only [ne_eq, not_true_eq_false, if_false]
+        simp only [SlotOk, if_true] at hslot
+        rcases hslot with h | ⟨v, hv, h⟩
+        · exact absurd h hpos
+        · rw [h]
+          refine ⟨.leaf _ _ .last hv, by simp, ?_⟩
+          intro x r
+          rw [get_short]
+          by_cases hx : x = 16
+          · subst hx; rw [onStrip_cons_self, onStrip_nil, h]
+          · rw [onStrip_cons_ne _ _ _ (fun e => hx e.symm), hother x hx]; simp [Mpt.get]
+      · simp only [ne_eq, h16, not_false_eq_true, if_true]
+        simp only [SlotOk, if_neg h16] at hslot
+        cases hc : ch' pos with
+        | empty => exact absurd hc hpos
+        | value v => rw [hc] at hslot; exact absurd hslot canon_value_false
+        | short ck cv =>
+          rw [hc] at hslot
+          simp only
+          refine ⟨?_, by simp, ?_⟩
+          · rcases canon_short_inv hslot with ⟨v, hcv, hK, hv⟩ | ⟨ch0, hcv, hKne, hK, hC0⟩
+            · subst hcv; exact .leaf _ _ (.cons _ _ h16 hK) hv
+            · subst hcv; exact .ext _ _ (by simp) (noTerm_cons.mpr ⟨h16, hK⟩) hC0
+          · intro x r
+            rw [get_short]
+            by_cases hx : x = pos
+            · subst hx; rw [onStrip_cons_self, hc, get_short]
+            · rw [onStrip_cons_ne _ _ _ (fun e => hx e.symm), hother x hx]; simp [Mpt.get]
+        | full ch0 =>
+          rw [hc] at hslot
+          simp only
+          refine ⟨.ext _ _ (by simp) (noTerm_cons.mpr ⟨h16, noTerm_nil⟩) hslot, by simp, ?_⟩
+          intro x r
+          rw [get_short]
+          by_cases hx : x = pos
+          · subst hx; rw [onStrip_cons_self, onStrip_nil, hc]
+          · rw [onStrip_cons_ne _ _ _ (fun e => hx e.symm), hother x hx]; simp [Mpt.get]
+    | cons b rest' =>
+      simp only
+      have hnd := nodup_nonEmptyIdx ch'
+      rw [hl] at hnd
+      have hab : pos ≠ b := by
+        intro e; subst e
+        simp at hnd
+      have ha : ch' pos ≠ .empty := (mem_nonEmptyIdx ch' pos).mp (by rw [hl]; simp)
+      have hb : ch' b ≠ .empty := (mem_nonEmptyIdx ch' b).mp (by rw [hl]; simp)
+      exact ⟨canon_full_of_slots hslots ⟨pos, b, hab, ha, hb⟩, by simp, fun x r => get_full_cons _ _ _⟩
+
+theorem delete_full_eq (ch : Nib → Node) (k0 : Nib) (kr : List Nib) (nn : Node)
+    (h : Mpt.delete (ch k0) kr = some (true, nn)) :
+    Mpt.delete (.full ch) (k0 :: kr) = some (true, reduceFull (setChild ch k0 nn)) := by
+  simp only [Mpt.delete, h, reduceFull]
+  cases hl : nonEmptyIdx (setChild ch k0 nn) with
+  | nil => rfl
+  | cons pos rest =>
+    cases rest with
+    | cons b r => rfl
+    | nil =>
+      simp only
+      by_cases h16 : pos = 16
+      · simp [h16]
+      · simp only [ne_eq, h16, not_false_eq_true, if_true]
+        cases setChild ch k0 nn pos <;> rfl
+
+theorem delete_short_eq (K : List Nib) (c : Node) (k cm : List Nib) (y : Nib) (rk' : List Nib)
+    (hsp : splitPrefix k K = (cm, y :: rk', [])) :
+    Mpt.delete (.short K c) k =
+      (match Mpt.delete c (y :: rk') with
+        | none => none
+        | some (false, _) => some (false, .short K c)
+        | some (true, child) =>
+          match child with
+          | .short ck cv => some (true, .short (K ++ ck) cv)
+          | _ => some (true, .short K child)) := by
+  simp only [Mpt.delete, hsp]
+  cases Mpt.delete c (y :: rk') with
+  | none => rfl
+  | some p =>
+    obtain ⟨d, child⟩ := p
+    cases d
+    · rfl
+    · cases child <;> rfl
+
+theorem delete_spec (n : Node) : ∀ (k : List Nib), Canon n → TermKey k →
+    ∃ d n', Mpt.delete n k = some (d, n') ∧ Canon n' ∧ (d = false → n' = n) ∧
+      (∀ ch, n = .full ch → n' ≠ .empty) ∧
+      (∀ k', TermKey k' → Mpt.get n' k' = if k' = k then .absent else Mpt.get n k') := by
+  induction n with
+  | empty =>
+    intro k _ _
+    refine ⟨false, .empty, by simp [Mpt.delete], .empty, fun _ => rfl, (by intro ch h; cases h), ?_⟩
+    intro k' _
+    simp [Mpt.get]
+  | value old => intro k hC; exact absurd hC canon_value_false
+  | short K c ih =>
+    intro k hC hk
+    obtain ⟨e1, e2, e3⟩ := splitPrefix_spec k K
+    cases hsp : splitPrefix k K with
+    | mk cm rest =>
+    cases rest with
+    | mk rk rK =>
+    rw [hsp] at e1 e2 e3
+    simp only at e1 e2 e3
+    cases rK with
+    | cons kn rK' =>
+      refine ⟨false, .short K c, by simp [Mpt.delete, hsp], hC, fun _ => rfl, (by intro ch h; cases h), ?_⟩
+      intro k' _
+      by_cases hkk : k' = k
+      · subst hkk
+        rw [if_pos rfl, get_short]
+        cases hs : stripPrefix K k' with
+        | none => rw [onStrip_none hs]
+        | some r2 =>
+          exfalso
+          have e := stripPrefix_some hs
+          rw [e2, e1] at e
+          have : rk = kn :: (rK' ++ r2) := by
+            have := List.append_cancel_left (by simpa using e : cm ++ rk = cm ++ (kn :: (rK' ++ r2)))
+            exact this
+          exact e3 kn kn (rK' ++ r2) rK' this rfl rfl
+      · rw [if_neg hkk]
+    | nil =>
+      have eK : cm = K := by simpa using e2.symm
+      subst eK
+      cases rk with
+      | nil =>
+        have ek : k = cm := by simpa using e1
+        subst ek
+        rcases canon_short_inv hC with ⟨old, hc, hK, hold⟩ | ⟨ch0, hc, hKne, hK, hC0⟩
+        · subst hc
+          refine ⟨true, .empty, by simp [Mpt.delete, hsp], .empty, by simp, (by intro ch h; cases h), ?_⟩
+          intro k' hk'
+          rw [get_leaf hK hk']
+          simp [Mpt.get]
+        · exact absurd hK (fun h => term_noTerm_false hk h)
+      | cons y rk' =>
+        rcases canon_short_inv hC with ⟨old, hc, hK, hold⟩ | ⟨ch0, hc, hKne, hK, hC0⟩
+        · exfalso
+          have hk2 : TermKey (cm ++ y :: rk') := e1 ▸ hk
+          have := term_prefix_eq hK hk2
+          cases this
+        · subst hc
+          have hk2 : TermKey (cm ++ y :: rk') := e1 ▸ hk
+          have hrk := term_suffix hK hk2
+          obtain ⟨d, child, hd, hCc, hdf, hnee, hget⟩ := ih (y :: rk') hC0 hrk
+          cases d with
+          | false =>
+            have := hdf rfl
+            subst this
+            refine ⟨false, .short cm (.full ch0), by rw [delete_short_eq _ _ _ _ _ _ hsp, hd], hC, fun _ => rfl,
+              (by intro ch h; cases h), ?_⟩
+            intro k' hk'
+            by_cases hkk : k' = k
+            · subst hkk
+              rw [if_pos rfl, get_short, e1, onStrip_some (stripPrefix_append_self cm (y :: rk'))]
+              have := hget (y :: rk') hrk
+              simpa using this
+            · rw [if_neg hkk]
+          | true =>
+            have hne := hnee ch0 rfl
+            -- the node built from the new child, and its lookup function
+            have key : ∃ n', Mpt.delete (.short cm (.full ch0)) k = some (true, n') ∧ Canon n' ∧
+                ∀ k', Mpt.get n' k' = onStrip cm k' (Mpt.get child) := by
+              cases hch : child with
+              | empty => exact absurd hch hne
+              | value v => rw [hch] at hCc; exact absurd hCc canon_value_false
+              | full ch' =>
+                rw [hch] at hCc hd
+                refine ⟨.short cm (.full ch'), by rw [delete_short_eq _ _ _ _ _ _ hsp, hd], .ext _ _ hKne hK hCc, ?_⟩
+                intro k'; rw [get_short]
+              | short ck cv =>
+                rw [hch] at hCc hd
+                refine ⟨.short (cm ++ ck) cv, by rw [delete_short_eq _ _ _ _ _ _ hsp, hd], ?_, ?_⟩
+                · rcases canon_short_inv hCc with ⟨v, hcv, hck, hv⟩ | ⟨ch1, hcv, hckne, hck, hC1⟩
+                  · subst hcv; exact .leaf _ _ (term_append hK hck) hv
+                  · subst hcv; exact .ext _ _ (by simp [hKne]) (noTerm_append.mpr ⟨hK, hck⟩) hC1
+                · intro k'
+                  rw [get_short, onStrip_append]
+                  have : (fun r => onStrip ck r (Mpt.get cv)) = Mpt.get (.short ck cv) := by
+                    funext r; exact (get_short ck cv r).symm
+                  rw [this]
+            obtain ⟨n', hdel, hCn, hgetn⟩ := key
+            refine ⟨true, n', hdel, hCn, by simp, (by intro ch h; cases h), ?_⟩
+            intro k' hk'
+            rw [hgetn, get_short]
+            cases hs : stripPrefix cm k' with
+            | none =>
+              rw [onStrip_none hs, onStrip_none hs]
+              have : k' ≠ k := by
+                intro e; subst e
+                rw [e1, stripPrefix_append_self] at hs; cases hs
+              simp [this]
+            | some r2 =>
+              rw [onStrip_some hs, onStrip_some hs]
+              have e := stripPrefix_some hs
+              subst e
+              have hr2 := term_suffix hK hk'
+              rw [hget r2 hr2, e1]
+              by_cases h : r2 = y :: rk'
+              · subst h; simp
+              · have : ¬ (cm ++ r2 = cm ++ y :: rk') := fun e => h (List.append_cancel_left e)
+                simp [h, this]
+  | full ch ih =>
+    intro k hC hk
+    cases k with
+    | nil => exact absurd rfl (term_ne_nil hk)
+    | cons k0 kr =>
+    obtain ⟨hch, h16, h2⟩ := canon_full_inv hC
+    have hchild : ∃ d nn, Mpt.delete (ch k0) kr = some (d, nn) ∧ SlotOk k0 nn ∧ (d = false → nn = ch k0) ∧
+        ∀ r, TermKey (k0 :: r) → Mpt.get nn r = if r = kr then .absent else Mpt.get (ch k0) r := by
+      by_cases hk0 : k0 = 16
+      · subst hk0
+        have := term_head16 hk
+        subst this
+        have hg : ∀ r, TermKey ((16 : Nib) :: r) → Mpt.get .empty r = if r = [] then .absent else Mpt.get (ch 16) r := by
+          intro r hr
+          have := term_head16 hr
+          subst this
+          simp [Mpt.get]
+        rcases h16 with h | ⟨old, hold, h⟩
+        · exact ⟨false, .empty, by simp [h, Mpt.delete], by simp [SlotOk], fun _ => h.symm, hg⟩
+        · exact ⟨true, .empty, by simp [h, Mpt.delete], by simp [SlotOk], by simp, hg⟩
+      · have hkr := term_tail hk hk0
+        obtain ⟨d, nn, hi, hCn, hdf, _, hget⟩ := ih k0 kr (hch k0 hk0) hkr
+        refine ⟨d, nn, hi, by simpa [SlotOk, hk0] using hCn, hdf, ?_⟩
+        intro r hr
+        exact hget r (term_tail hr hk0)
+    obtain ⟨d, nn, hi, hslot, hdf, hget⟩ := hchild
+    cases d with
+    | false =>
+      have := hdf rfl
+      subst this
+      refine ⟨false, .full ch, by simp [Mpt.delete, hi], hC, fun _ => rfl, by simp, ?_⟩
+      intro k' hk'
+      by_cases hkk : k' = k0 :: kr
+      · subst hkk
+        rw [if_pos rfl, get_full_cons]
+        have := hget kr hk
+        simpa using this
+      · rw [if_neg hkk]
+    | true =>
+      have hslots : ∀ i, SlotOk i (setChild ch k0 nn i) := by
+        intro i
+        simp only [setChild]
+        by_cases h : i = k0
+        · subst h; simpa using hslot
+        · simpa [h] using slots_of_canon_full hC i
+      have hne : ∃ i, setChild ch k0 nn i ≠ .empty := by
+        obtain ⟨i, j, hij, hi', hj'⟩ := h2
+        by_cases h : i = k0
+        · refine ⟨j, ?_⟩
+          have : j ≠ k0 := fun e => hij (h.trans e.symm)
+          simpa [setChild, this] using hj'
+        · exact ⟨i, by simpa [setChild, h] using hi'⟩
+      obtain ⟨hCr, hner, hgetr⟩ := reduceFull_spec _ hslots hne
+      refine ⟨true, _, delete_full_eq ch k0 kr nn hi, hCr, by simp, fun _ _ => hner, ?_⟩
+      intro k' hk'
+      cases k' with
+      | nil => exact absurd rfl (term_ne_nil hk')
+      | cons x r =>
+        rw [hgetr, get_full_cons]
+        simp only [setChild]
+        by_cases h : x = k0
+        · subst h
+          rw [if_pos rfl, hget r hk']
+          by_cases h' : r = kr <;> simp [h']
+        · rw [if_neg h]
+          have : ¬ (x :: r = k0 :: kr) := by simp [h]
+          rw [if_neg this]
+
+/-! ### histories -/
+
+/-- one trie operation on a hex key: `TryUpdate(key, value)` (an empty value deletes) / `TryDelete(key)` -/
+inductive Op where
+  | put (k : List Nib) (v : Val)
+  | del (k : List Nib)
+
+def Op.key : Op → List Nib
+  | .put k _ => k
+  | .del k => k
+
+/-- the implementation's step (`none` = panic) -/
+def stepOp (t : Node) : Op → Option Node
+  | .put k v => Mpt.update t k v
+  | .del k => Mpt.remove t k
+
+def run : Node → List Op → Option Node
+  | t, [] => some t
+  | t, op :: ops =>
+    match stepOp t op with
+    | none => none
+    | some t' => run t' ops
+
+/-- the specification: a finite map as a function, last write wins, empty value = delete -/
+def specStep (m : List Nib → Option Val) : Op → (List Nib → Option Val)
+  | .put k v => fun k' => if k' = k then (if v = [] then none else some v) else m k'
+  | .del k => fun k' => if k' = k then none else m k'
+
+def spec : (List Nib → Option Val) → List Op → (List Nib → Option Val)
+  | m, [] => m
+  | m, op :: ops => spec (specStep m op) ops
+
+def toRes : Option Val → GetRes
+  | some v => .found v
+  | none => .absent
+
+theorem step_spec (t : Node) (m : List Nib → Option Val) (op : Op) (hC : Canon t)
+    (hm : ∀ k, TermKey k → Mpt.get t k = toRes (m k)) (hk : TermKey op.key) :
+    ∃ t', stepOp t op = some t' ∧ Canon t' ∧ ∀ k, TermKey k → Mpt.get t' k = toRes (specStep m op k) := by
+  have hdel : ∀ k0, TermKey k0 → ∃ t', (Mpt.delete t k0).map (·.2) = some t' ∧ Canon t' ∧
+      ∀ k, TermKey k → Mpt.get t' k = toRes (if k = k0 then none else m k) := by
+    intro k0 hk0
+    obtain ⟨d, n', hd, hCn, _, _, hget⟩ := delete_spec t k0 hC hk0
+    refine ⟨n', by simp [hd], hCn, ?_⟩
+    intro k hk'
+    rw [hget k hk']
+    by_cases h : k = k0
+    · simp [h, toRes]
+    · simp [h, hm k hk']
+  cases op with
+  | del k0 => exact hdel k0 hk
+  | put k0 v =>
+    cases v with
+    | nil =>
+      obtain ⟨t', h1, h2, h3⟩ := hdel k0 hk
+      exact ⟨t', by simpa [stepOp, Mpt.update] using h1, h2, by simpa [specStep] using h3⟩
+    | cons y ys =>
+      obtain ⟨d, n', hd, hCn, _, _, _, hget⟩ := insert_spec t k0 (y :: ys) hC hk (by simp)
+      refine ⟨n', by simp [stepOp, Mpt.update, hd], hCn, ?_⟩
+      intro k hk'
+      rw [hget k hk']
+      by_cases h : k = k0
+      · simp [h, specStep, toRes]
+      · simp [h, specStep, hm k hk']
+
+theorem run_spec : ∀ (ops : List Op) (t : Node) (m : List Nib → Option Val), Canon t →
+    (∀ k, TermKey k → Mpt.get t k = toRes (m k)) → (∀ op, op ∈ ops → TermKey op.key) →
+    ∃ t', run t ops = some t' ∧ Canon t' ∧ ∀ k, TermKey k → Mpt.get t' k = toRes (spec m ops k) := by
+  intro ops
+  induction ops with
+  | nil => intro t m hC hm _; exact ⟨t, rfl, hC, hm⟩
+  | cons op ops ih =>
+    intro t m hC hm hk
+    obtain ⟨t1, h1, hC1, hg1⟩ := step_spec t m op hC hm (hk op List.mem_cons_self)
+    obtain ⟨t2, h2, hC2, hg2⟩ := ih t1 (specStep m op) hC1 hg1 (fun o ho => hk o (List.mem_cons_of_mem _ ho))
+    exact ⟨t2, by simp [run, h1, h2], hC2, hg2⟩
+
+/-! ### `keybytesToHex` -/
+
+theorem ofNat_ne16 (x : Nat) : (Fin.ofNat 17 (x % 16)) ≠ (16 : Nib) := by
+  intro h
+  have := congrArg Fin.val h
+  simp [Fin.ofNat] at this
+  omega
+
+theorem hexKey_term (bs : List Nat) : TermKey (hexKey bs) := by
+  induction bs with
+  | nil => exact .last
+  | cons b bs ih => exact .cons _ _ (ofNat_ne16 _) (.cons _ _ (ofNat_ne16 _) ih)
+
+theorem hexKey_inj : ∀ (a b : List Nat), (∀ x, x ∈ a → x < 256) → (∀ x, x ∈ b → x < 256) →
+    hexKey a = hexKey b → a = b := by
+  intro a
+  induction a with
+  | nil =>
+    intro b _ _ h
+    cases b with
+    | nil => rfl
+    | cons y b =>
+      simp only [hexKey, List.cons.injEq] at h
+      exact absurd h.1.symm (ofNat_ne16 _)
+  | cons x a ih =>
+    intro b ha hb h
+    cases b with
+    | nil =>
+      simp only [hexKey, List.cons.injEq] at h
+      exact absurd h.1 (ofNat_ne16 _)
+    | cons y b =>
+      simp only [hexKey, List.cons.injEq] at h
+      obtain ⟨h1, h2, h3⟩ := h
+      have hx := ha x List.mem_cons_self
+      have hy := hb y List.mem_cons_self
+      have e1 := congrArg Fin.val h1
+      have e2 := congrArg Fin.val h2
+      simp [Fin.ofNat] at e1 e2
+      have : x = y := by omega
+      subst this
+      rw [ih b (fun z hz => ha z (List.mem_cons_of_mem _ hz)) (fun z hz => hb z (List.mem_cons_of_mem _ hz)) h3]
+
+/-! ### canonical tries are determined by their content -/
+
+theorem found_short {K : List Nib} {c : Node} {k : List Nib} {v : Val}
+    (h : Mpt.get (.short K c) k = .found v) : ∃ r, k = K ++ r ∧ Mpt.get c r = .found v := by
+  rw [get_short] at h
+  cases hs : stripPrefix K k with
+  | none => rw [onStrip_none hs] at h; cases h
+  | some r => rw [onStrip_some hs] at h; exact ⟨r, stripPrefix_some hs, h⟩
+
+theorem get_short_append_self (K : List Nib) (c : Node) (r : List Nib) :
+    Mpt.get (.short K c) (K ++ r) = Mpt.get c r := by
+  rw [get_short, onStrip_some (stripPrefix_append_self K r)]
+
+/-- every non-empty canonical trie stores at least one key -/
+theorem canon_has_key {n : Node} (hC : Canon n) : n ≠ .empty →
+    ∃ k v, TermKey k ∧ Mpt.get n k = .found v := by
+  induction hC with
+  | empty => intro h; exact absurd rfl h
+  | leaf K v hK _ => intro _; exact ⟨K, v, hK, by rw [get_leaf hK hK]; simp⟩
+  | ext K ch _ hK _ ih =>
+    intro _
+    obtain ⟨k, v, hk, hg⟩ := ih (by simp)
+    exact ⟨K ++ k, v, term_append hK hk, by rw [get_short_append_self]; exact hg⟩
+  | full ch h1 h2 h3 ih =>
+    intro _
+    obtain ⟨i, _, _, hi, _⟩ := h3
+    by_cases h16 : i = 16
+    · subst h16
+      rcases h2 with h | ⟨v, _, h⟩
+      · exact absurd h hi
+      · exact ⟨[16], v, .last, by rw [get_full_cons, h]; simp [Mpt.get]⟩
+    · obtain ⟨k, v, hk, hg⟩ := ih i h16 hi
+      exact ⟨i :: k, v, .cons _ _ h16 hk, by rw [get_full_cons]; exact hg⟩
+
+theorem slot_has_key {ch : Nib → Node} (hC : Canon (.full ch)) (x : Nib) (hx : ch x ≠ .empty) :
+    ∃ k v, TermKey (x :: k) ∧ Mpt.get (.full ch) (x :: k) = .found v := by
+  obtain ⟨h1, h2, _⟩ := canon_full_inv hC
+  by_cases h16 : x = 16
+  · subst h16
+    rcases h2 with h | ⟨v, _, h⟩
+    · exact absurd h hx
+    · exact ⟨[], v, .last, by rw [get_full_cons, h]; simp [Mpt.get]⟩
+  · obtain ⟨k, v, hk, hg⟩ := canon_has_key (h1 x h16) hx
+    exact ⟨k, v, .cons _ _ h16 hk, by rw [get_full_cons]; exact hg⟩
+
+theorem two_keys_of_full {ch : Nib → Node} (hC : Canon (.full ch)) :
+    ∃ i j k1 k2 v1 v2, i ≠ j ∧ TermKey (i :: k1) ∧ TermKey (j :: k2) ∧
+      Mpt.get (.full ch) (i :: k1) = .found v1 ∧ Mpt.get (.full ch) (j :: k2) = .found v2 := by
+  obtain ⟨_, _, i, j, hij, hi, hj⟩ := canon_full_inv hC
+  obtain ⟨k1, v1, ht1, hg1⟩ := slot_has_key hC i hi
+  obtain ⟨k2, v2, ht2, hg2⟩ := slot_has_key hC j hj
+  exact ⟨i, j, k1, k2, v1, v2, hij, ht1, ht2, hg1, hg2⟩
+
+theorem two_keys_of_ext {K : List Nib} {ch : Nib → Node} (hK : NoTerm K) (hC : Canon (.full ch)) :
+    ∃ i j k1 k2 v1 v2, i ≠ j ∧ TermKey (K ++ i :: k1) ∧ TermKey (K ++ j :: k2) ∧
+      Mpt.get (.short K (.full ch)) (K ++ i :: k1) = .found v1 ∧
+      Mpt.get (.short K (.full ch)) (K ++ j :: k2) = .found v2 := by
+  obtain ⟨i, j, k1, k2, v1, v2, hij, ht1, ht2, hg1, hg2⟩ := two_keys_of_full hC
+  exact ⟨i, j, k1, k2, v1, v2, hij, term_append hK ht1, term_append hK ht2,
+    by rw [get_short_append_self]; exact hg1, by rw [get_short_append_self]; exact hg2⟩
+
+theorem found_leaf {K : List Nib} {v v' : Val} {k : List Nib} (hK : TermKey K) (hk : TermKey k)
+    (h : Mpt.get (.short K (.value v)) k = .found v') : k = K ∧ v' = v := by
+  rw [get_leaf hK hk] at h
+  by_cases e : k = K
+  · rw [if_pos e] at h; injection h with h; exact ⟨e, h.symm⟩
+  · rw [if_neg e] at h; cases h
+
+theorem empty_false {b : Node} (hb : Canon b) (hne : b ≠ .empty)
+    (hsem : ∀ k, TermKey k → Mpt.get .empty k = Mpt.get b k) : False := by
+  obtain ⟨k, v, hk, hg⟩ := canon_has_key hb hne
+  have := hsem k hk
+  rw [hg] at this
+  simp [Mpt.get] at this
+
+theorem leaf_ext_false {K K' : List Nib} {v : Val} {ch' : Nib → Node} (hK : TermKey K)
+    (hK' : NoTerm K') (hb : Canon (.full ch'))
+    (hsem : ∀ k, TermKey k → Mpt.get (.short K (.value v)) k = Mpt.get (.short K' (.full ch')) k) : False := by
+  obtain ⟨i, j, k1, k2, v1, v2, hij, ht1, ht2, hg1, hg2⟩ := two_keys_of_ext hK' hb
+  have e1 := (found_leaf hK ht1 ((hsem _ ht1).trans hg1)).1
+  have e2 := (found_leaf hK ht2 ((hsem _ ht2).trans hg2)).1
+  have := List.append_cancel_left (e1.trans e2.symm)
+  simp only [List.cons.injEq] at this
+  exact hij this.1
+
+theorem leaf_full_false {K : List Nib} {v : Val} {ch' : Nib → Node} (hK : TermKey K)
+    (hb : Canon (.full ch'))
+    (hsem : ∀ k, TermKey k → Mpt.get (.short K (.value v)) k = Mpt.get (.full ch') k) : False := by
+  obtain ⟨i, j, k1, k2, v1, v2, hij, ht1, ht2, hg1, hg2⟩ := two_keys_of_full hb
+  have e1 := (found_leaf hK ht1 ((hsem _ ht1).trans hg1)).1
+  have e2 := (found_leaf hK ht2 ((hsem _ ht2).trans hg2)).1
+  have := e1.trans e2.symm
+  simp only [List.cons.injEq] at this
+  exact hij this.1
+
+theorem ext_full_false {K : List Nib} {ch ch' : Nib → Node} (hKne : K ≠ [])
+    (hb : Canon (.full ch'))
+    (hsem : ∀ k, TermKey k → Mpt.get (.short K (.full ch)) k = Mpt.get (.full ch') k) : False := by
+  obtain ⟨i, j, k1, k2, v1, v2, hij, ht1, ht2, hg1, hg2⟩ := two_keys_of_full hb
+  obtain ⟨r1, e1, _⟩ := found_short ((hsem _ ht1).trans hg1)
+  obtain ⟨r2, e2, _⟩ := found_short ((hsem _ ht2).trans hg2)
+  cases K with
+  | nil => exact hKne rfl
+  | cons x K =>
+    simp only [List.cons_append, List.cons.injEq] at e1 e2
+    exact hij (e1.1.trans e2.1.symm)
+
+theorem prefix_of_both : ∀ (P K : List Nib) (i j : Nib) (x y r1 r2 : List Nib), i ≠ j →
+    stripPrefix P (K ++ i :: x) = some r1 → stripPrefix P (K ++ j :: y) = some r2 → ∃ s, K = P ++ s := by
+  intro P
+  induction P with
+  | nil => intro K _ _ _ _ _ _ _ _ _; exact ⟨K, rfl⟩
+  | cons p P ih =>
+    intro K i j x y r1 r2 hij h1 h2
+    cases K with
+    | nil =>
+      exfalso
+      simp only [List.nil_append, stripPrefix] at h1 h2
+      split at h1
+      · next e1 =>
+        split at h2
+        · next e2 => exact hij (e1.symm.trans e2)
+        · cases h2
+      · cases h1
+    | cons q K =>
+      simp only [List.cons_append, stripPrefix] at h1 h2
+      split at h1
+      · next e1 =>
+        rw [if_pos e1] at h2
+        obtain ⟨s, hs⟩ := ih K i j x y r1 r2 hij h1 h2
+        exact ⟨s, by rw [hs, e1]; rfl⟩
+      · cases h1
+
+theorem ext_key_eq {K K' : List Nib} {ch ch' : Nib → Node} (hK : NoTerm K) (hK' : NoTerm K')
+    (ha : Canon (.full ch)) (hb : Canon (.full ch'))
+    (hsem : ∀ k, TermKey k → Mpt.get (.short K (.full ch)) k = Mpt.get (.short K' (.full ch')) k) :
+    ∃ s, K = K' ++ s := by
+  obtain ⟨i, j, k1, k2, v1, v2, hij, ht1, ht2, hg1, hg2⟩ := two_keys_of_ext hK ha
+  obtain ⟨r1, e1, _⟩ := found_short ((hsem _ ht1).symm.trans hg1)
+  obtain ⟨r2, e2, _⟩ := found_short ((hsem _ ht2).symm.trans hg2)
+  have s1 : stripPrefix K' (K ++ i :: k1) = some r1 := by rw [e1]; exact stripPrefix_append_self _ _
+  have s2 : stripPrefix K' (K ++ j :: k2) = some r2 := by rw [e2]; exact stripPrefix_append_self _ _
+  exact prefix_of_both K' K i j k1 k2 r1 r2 hij s1 s2
+
+/-- **extensionality**: two canonical tries with the same content (the same answer of `get` on every
+    terminated key) are the same tree. -/
+theorem canon_ext (a : Node) : ∀ (b : Node), Canon a → Canon b →
+    (∀ k, TermKey k → Mpt.get a k = Mpt.get b k) → a = b := by
+  induction a with
+  | empty =>
+    intro b _ hb hsem
+    apply Classical.byContradiction
+    intro hne
+    exact empty_false hb (fun e => hne e.symm) hsem
+  | value v => intro b ha; exact absurd ha canon_value_false
+  | short K c ih =>
+    intro b ha hb hsem
+    rcases canon_short_inv ha with ⟨v, hc, hK, hv⟩ | ⟨ch, hc, hKne, hK, hCc⟩
+    · subst hc
+      cases hb with
+      | empty => exact absurd (fun k hk => (hsem k hk).symm) (fun h => empty_false ha (by simp) h)
+      | leaf K' v' hK' hv' =>
+        have h := hsem K' hK'
+        rw [get_leaf hK' hK', if_pos rfl] at h
+        obtain ⟨e1, e2⟩ := found_leaf hK hK' h
+        rw [e1, e2]
+      | ext K' ch' _ hK' hC' => exact absurd hsem (fun h => leaf_ext_false hK hK' hC' h)
+      | full ch' h1 h2 h3 => exact absurd hsem (fun h => leaf_full_false hK (.full ch' h1 h2 h3) h)
+    · subst hc
+      cases hb with
+      | empty => exact absurd (fun k hk => (hsem k hk).symm) (fun h => empty_false ha (by simp) h)
+      | leaf K' v' hK' hv' =>
+        exact absurd (fun k hk => (hsem k hk).symm) (fun h => leaf_ext_false hK' hK hCc h)
+      | full ch' h1 h2 h3 => exact absurd hsem (fun h => ext_full_false hKne (.full ch' h1 h2 h3) h)
+      | ext K' ch' hKne' hK' hC' =>
+        obtain ⟨s, hs⟩ := ext_key_eq hK hK' hCc hC' hsem
+        obtain ⟨s', hs'⟩ := ext_key_eq hK' hK hC' hCc (fun k hk => (hsem k hk).symm)
+        have hlen := congrArg List.length hs
+        have hlen' := congrArg List.length hs'
+        simp only [List.length_append] at hlen hlen'
+        have : s = [] := List.eq_nil_of_length_eq_zero (by omega)
+        subst this
+        rw [List.append_nil] at hs
+        subst hs
+        have hchild : ∀ r, TermKey r → Mpt.get (.full ch) r = Mpt.get (.full ch') r := by
+          intro r hr
+          have := hsem (K ++ r) (term_append hK hr)
+          rwa [get_short_append_self, get_short_append_self] at this
+        rw [ih (.full ch') hCc hC' hchild]
+  | full ch ih =>
+    intro b ha hb hsem
+    cases hb with
+    | empty => exact absurd (fun k hk => (hsem k hk).symm) (fun h => empty_false ha (by simp) h)
+    | leaf K' v' hK' hv' =>
+      exact absurd (fun k hk => (hsem k hk).symm) (fun h => leaf_full_false hK' ha h)
+    | ext K' ch' hKne' hK' hC' =>
+      exact absurd (fun k hk => (hsem k hk).symm) (fun h => ext_full_false hKne' ha h)
+    | full ch' h1' h2' h3' =>
+      obtain ⟨h1, h2, _⟩ := canon_full_inv ha
+      have : ch = ch' := by
+        funext i
+        by_cases h16 : i = 16
+        · subst h16
+          have h := hsem [16] .last
+          rw [get_full_cons, get_full_cons] at h
+          rcases h2 with e | ⟨v, _, e⟩ <;> rcases h2' with e' | ⟨v', _, e'⟩
+          · rw [e, e']
+          · rw [e, e'] at h; simp [Mpt.get] at h
+          · rw [e, e'] at h; simp [Mpt.get] at h
+          · rw [e, e'] at h; simp only [Mpt.get] at h; injection h with h; rw [e, e', h]
+        · apply ih i (ch' i) (h1 i h16) (h1' i h16)
+          intro k hk
+          have := hsem (i :: k) (.cons _ _ h16 hk)
+          rwa [get_full_cons, get_full_cons] at this
+      rw [this]
 
 end LemoProofs.MptLemmas
